@@ -203,6 +203,20 @@ pub fn store_dump(p: &MemPersister) -> Vec<(String, u64, String)> {
     v
 }
 
+/// the channel's key material as seen from outside: base points, funding key, the first two
+/// per-commitment points
+fn keys_fp(keys: &lightning_signer::lightning::sign::InMemorySigner) -> String {
+    use lightning_signer::lightning::sign::ChannelSigner;
+    let secp = lightning_signer::bitcoin::secp256k1::Secp256k1::new();
+    let pk = keys.pubkeys();
+    let p0 = keys.get_per_commitment_point((1u64 << 48) - 1, &secp).map(|p| p.to_string()).unwrap_or_default();
+    let p1 = keys.get_per_commitment_point((1u64 << 48) - 2, &secp).map(|p| p.to_string()).unwrap_or_default();
+    format!(
+        "funding={} rev={} pay={} delayed={} htlc={} p0={} p1={}",
+        pk.funding_pubkey, pk.revocation_basepoint.0, pk.payment_point, pk.delayed_payment_basepoint.0, pk.htlc_basepoint.0, p0, p1
+    )
+}
+
 /// The state that C10 / C11 enumerate, as comparable strings keyed by component:
 /// per channel the enforcement state and the monitor state, the tracker's tip / height /
 /// remembered headers, the allowlist, the approved invoices, the high-water mark and the two
@@ -257,9 +271,13 @@ pub fn fingerprint(node: &Node) -> Vec<(String, String)> {
     for (id, slot) in chans {
         let g = slot.lock().unwrap();
         match &*g {
-            ChannelSlot::Stub(s) => out.push((format!("chan:{}", id), format!("stub@{}", s.blockheight))),
+            ChannelSlot::Stub(s) => {
+                out.push((format!("chan:{}", id), format!("stub@{}", s.blockheight)));
+                out.push((format!("keys:{}", id), keys_fp(&s.keys)));
+            }
             ChannelSlot::Ready(c) => {
                 out.push((format!("chan:{}", id), format!("{:?}", c.enforcement_state)));
+                out.push((format!("keys:{}", id), keys_fp(&c.keys)));
                 out.push((
                     format!("monitor:{}", id),
                     format!(
